@@ -171,6 +171,8 @@ def gen_scalar(rng, isint, iscomplex):
     if isint:
         return rng.choice([2, 3, -2, 5])
     if iscomplex and rng.random() < 0.5:
+        if rng.random() < 0.25:        # purely imaginary
+            return [0.0, round(rng.uniform(-2, 2), 3) or 1.0]
         return [round(rng.uniform(-2, 2), 3), round(rng.uniform(-2, 2), 3)]
     mag = 10 ** rng.uniform(-3, 3) if rng.random() < 0.3 else rng.uniform(0.1, 3)
     return round(mag * rng.choice([1, -1]), 6)
@@ -224,6 +226,10 @@ def gen_op(rng, npool, isint, iscomplex, struct):
     if '**' in form:
         op['n'] = rng.choice([0, 1, 2, 3, 4, 5, 6, -1, -2, -3])
     op['fill'] = rng.choice(GARBAGE)
+    if struct != 'leaf' and 'x0' not in form and rng.random() < 0.25:
+        # operate on the p-th *parts* of the containers (elements of the
+        # component space that are at the same time parts of live containers)
+        op['part'] = rng.randrange(4)
     return op
 
 
@@ -482,6 +488,10 @@ class Run(object):
         b = _scalar(op.get('b', 1))
         n = op.get('n', 2)
         S = pool.S
+        if 'part' in op and hasattr(xi, 'parts') and len(xi.parts) > 0:
+            pi = op['part'] % len(xi.parts)
+            xi, xj, xk = xi.parts[pi], xj.parts[pi], xk.parts[pi]
+            S = xi.space
         spec = _spec(f, a, b, n)
         if spec is None:
             raise HarnessError('no spec for ' + f)
@@ -564,8 +574,7 @@ class Run(object):
                 self.viol('return-identity', _form_class(f),
                           '{}: parts of the result are not the parts of X'
                           ''.format(f))
-        if not hasattr(res, 'space') or res.space != (
-                S if 'x0' not in f or True else S):
+        if not hasattr(res, 'space') or res.space != S:
             self.viol('result-space', _form_class(f),
                       '{} returned {!r:.60} not in the space'.format(f, res))
         res_arrs = elem_arrays(res)
@@ -629,7 +638,8 @@ class Run(object):
         self.ctx.event(f, op['i'], op['j'], op['k'],
                        elem_digest(res2)[:12])
         if nontrivial:
-            self.ctx.covered(_form_class(f), pattern, self.regime(),
+            self.ctx.covered(_form_class(f) + ('@part' if 'part' in op else ''),
+                             pattern, self.regime(),
                              pool.cfg['leaf']['dtype'], pool.cfg['struct'],
                              _sclass(a), _sclass(b) if ',b,' in f else '-',
                              _layout_class(sel, opnds, outsel))
